@@ -92,7 +92,18 @@ fn supported_query(r: &mut Rng, cat: &Catalog) -> String {
     let lit = || -> String { "0".into() };
     let _ = lit;
     let num_lit = *r.pick(&["0", "1", "-1", "2", "0.5", "1e10", "9223372036854775807", "-9223372036854775808", "0.0"]);
-    match r.below(40) {
+    match r.below(42) {
+        // two aggregating sub-queries joined: under DP both sides are rewritten and the join above them is rebuilt
+        // over inputs whose types changed (its field names must survive, cf. fix 175b89a)
+        40 | 41 => {
+            let a1 = *r.pick(&["SUM", "COUNT", "AVG"]);
+            let a2 = *r.pick(&["SUM", "COUNT", "AVG"]);
+            let on = if r.bool() { "CROSS JOIN b".to_string() } else { "JOIN b ON a.sx <= b.sy".to_string() };
+            format!(
+                "WITH a AS (SELECT 2 * {}({}) AS sx FROM {t}), b AS (SELECT 2 * {}({}) AS sy FROM {t}) SELECT * FROM a {}",
+                a1, q(c1), a2, q(c2), on, t = t.name
+            )
+        }
         // no FROM clause, chains of set operations, extreme LIMIT / OFFSET
         36 => format!("SELECT {} AS x", num_lit),
         37 => format!("SELECT {c} FROM {t} UNION SELECT {c} FROM {t} UNION ALL SELECT {c} FROM {t}", c = q(c1), t = t.name),
